@@ -105,6 +105,8 @@ def same(a, b):
 def ite(c, a, b, k):
     if is_c(c):
         return a if c else b
+    if z3.is_not(c):  # normal form: positive condition
+        c, a, b = c.arg(0), b, a
     if k == "k":
         if same(a, b):
             return a
@@ -330,10 +332,27 @@ def cmp(op, a, b, k):
             return b_or(b_not(A), B)
         if op == "ge":
             return b_or(A, b_not(B))
+    if k in ("i", "f"):
+        # comparison of If(c, const, const) with a constant folds to c / Not(c) / a constant
+        for x, y, flip in ((a, b, False), (b, a, True)):
+            if is_c(y) and not is_c(x) and z3.is_app_of(x, z3.Z3_OP_ITE) and _is_num(x.arg(1)) and _is_num(x.arg(2)):
+                v1, v2 = _num(x.arg(1)), _num(x.arg(2))
+                o = {"lt": "gt", "le": "ge", "gt": "lt", "ge": "le"}.get(op, op) if flip else op
+                return ite(x.arg(0), cmp(o, v1, y, k), cmp(o, v2, y, k), "b")
     A, B = lift(a, k), lift(b, k)
     if A.eq(B):
         return op in ("le", "ge", "eq")
     return {"lt": A < B, "le": A <= B, "gt": A > B, "ge": A >= B, "eq": A == B, "ne": A != B}[op]
+
+
+def _is_num(t):
+    return z3.is_int_value(t) or z3.is_rational_value(t)
+
+
+def _num(t):
+    if z3.is_int_value(t):
+        return t.as_long()
+    return Fraction(t.numerator_as_long(), t.denominator_as_long())
 
 
 def convert(x, kfrom, kto):
@@ -752,7 +771,7 @@ class Sym:
         return vmap1(f, a)
 
     def _func(self, name, *sorts):
-        key = (name,) + tuple(str(s) for s in sorts)
+        key = (name, len(sorts))  # names encode their signature (see uf_apply / _keyfun)
         if key not in self.uf_cache:
             self.uf_cache[key] = z3.Function(name, *sorts)
         return self.uf_cache[key]
